@@ -18,11 +18,11 @@ CHECKS = {
   "Hang = one parse exceeding 20 s with parser frames on the stack (bounded progress); inputs limited to 64 KiB as the property states.",
   "runtime monitor: panic/fatal-exit/hang monitor around the real parser over generated hostile inputs", "DESIGN.md §4 C09"),
  "C01": ("e-conn", "exploration",
-  "Real Service on a socket, scripted dispatcher whose behaviour is carried by each call, raw clients that pipeline and segment request bytes, N concurrent connections per round. A sequential model of one connection (written from the statement) predicts the reply frames and the handler log; observed frames (number-exact JSON), EOF position, handler log (target, flags as seen, result of every reply attempt), one-handler-at-a-time gauge and peer attribution must match. Holds on the scripts, segmentations and interleavings that were run; nothing is claimed about others. Workloads include long-lived connections (hundreds of calls), hundreds of simultaneously open connections with idle ones held, and rounds in which one client stops reading in the middle of a multi-MiB reply while the others must be served. Every reply length in a window below powers of two (4096 .. 131072, thorough to 2 MiB) is followed by further calls on the same connection. Handlers reply under derived contexts whose deadline passes before their next reply; nil and unencodable raw JSON reply values.",
+  "Real Service on a socket, scripted dispatcher whose behaviour is carried by each call, raw clients that pipeline and segment request bytes, N concurrent connections per round. A sequential model of one connection (written from the statement) predicts the reply frames and the handler log; observed frames (number-exact JSON), EOF position, handler log (target, flags as seen, result of every reply attempt), one-handler-at-a-time gauge and peer attribution must match. Holds on the scripts, segmentations and interleavings that were run; nothing is claimed about others. Workloads include long-lived connections (hundreds of calls), hundreds of simultaneously open connections with idle ones held, and rounds in which one client stops reading in the middle of a multi-MiB reply while the others must be served. Every reply length in a window below powers of two (4096 .. 131072, thorough to 2 MiB) is followed by further calls on the same connection. Handlers reply under derived contexts whose deadline passes before their next reply; nil and unencodable raw JSON reply values. Handler-sent standard errors carry the strings the routing errors carry.",
   "Trusted: the ~150-line connection model, encoding/json as tokenizer, the kernel's FIFO accept queue (barrier probe). Connections ended by the service with unread pipelined data are run on unix sockets only.",
   "runtime monitor: reference-model oracle over recorded wire bytes and handler event log, concurrent connections, segmentation schedules", "DESIGN.md §4 C01"),
  "C02": ("e-pair", "exploration",
-  "A recording / re-segmenting proxy between a real Connection and a real Service captures both directions; every captured stream must split at NUL into exactly as many chunks as messages were sent, each a valid JSON object; values must arrive identically under every re-segmentation (as read, byte-wise, random pieces) and under exact partitions around the 4096-byte buffer on both receiving sides; every message length in windows around 4096 and 8192 (thorough 65536) is produced in both directions. Further parts: twelve connections with in-flight replies larger than the socket buffer (slow readers, two processors); a pause inside a reply after an earlier call's deadline; long pauses against a service with an idle timeout. Sends and receives interleaved on one connection while the proxy coalesces what the service sends into one segment. Replies whose value is a nil json.RawMessage or *json.RawMessage.",
+  "A recording / re-segmenting proxy between a real Connection and a real Service captures both directions; every captured stream must split at NUL into exactly as many chunks as messages were sent, each a valid JSON object; values must arrive identically under every re-segmentation (as read, byte-wise, random pieces) and under exact partitions around the 4096-byte buffer on both receiving sides; every message length in windows around 4096 and 8192 (thorough 65536) is produced in both directions. Further parts: twelve connections with in-flight replies larger than the socket buffer (slow readers, two processors); a pause inside a reply after an earlier call's deadline; long pauses against a service with an idle timeout. Sends and receives interleaved on one connection while the proxy coalesces what the service sends into one segment. Replies whose value is a nil json.RawMessage or *json.RawMessage. Client Connections are closed twice; a watchdog reports client operations that outlive their context by far.",
   "Trusted: the proxy (forwards bytes verbatim, records what it read), json.Valid. Callers pass valid UTF-8.",
   "runtime monitor: wire-capture framing oracle + reference-model equality under segmentation schedules", "DESIGN.md §4 C02"),
  "C03": ("e-pair", "exploration",
@@ -34,7 +34,7 @@ CHECKS = {
   "Trusted: the routing model (split at last '.', exact table lookup). Names compared as exact byte strings.",
   "runtime monitor: reference-model oracle over reply frames and per-dispatcher invocation log", "DESIGN.md §4 C04"),
  "C10": ("e-conn", "fault_enumeration",
-  "Every generated byte stream (valid, mutated, wrong-shape, shuffled, random, unterminated) is aborted at EVERY byte offset, once by half-close (exact model oracle on replies and dispatches) and once by immediate close (prefix oracle), 48 aborts per round sharing the service with a well-behaved connection judged by the exact C01 oracle; plus aborts during multi-MiB replies and 8 MiB unterminated frames. After each configuration the active-connection counter must be 0, Shutdown must make the serving call return nil, and a service with an idle timeout must stop with ServiceTimeoutError. Process death in a journalled case is a violation. Every wrong-shape frame is used at least once; large well-formed calls are judged exactly; a stalled (not reading, not closing) client must not disturb the others. Long-lived connections carry tens of MiB (thorough: beyond 2^32 bytes) in each direction, every call answered exactly. Connections the service ends while the client keeps its socket open are released all the same.",
+  "Every generated byte stream (valid, mutated, wrong-shape, shuffled, random, unterminated) is aborted at EVERY byte offset, once by half-close (exact model oracle on replies and dispatches) and once by immediate close (prefix oracle), 48 aborts per round sharing the service with a well-behaved connection judged by the exact C01 oracle; plus aborts during multi-MiB replies and 8 MiB unterminated frames. After each configuration the active-connection counter must be 0, Shutdown must make the serving call return nil, and a service with an idle timeout must stop with ServiceTimeoutError. Process death in a journalled case is a violation. Every wrong-shape frame is used at least once; large well-formed calls are judged exactly; a stalled (not reading, not closing) client must not disturb the others. Long-lived connections carry tens of MiB (thorough: beyond 2^32 bytes) in each direction, every call answered exactly. Connections the service ends while the client keeps its socket open are released all the same. Clients pausing up to 2.5 s (thorough 12 s) inside a frame are answered.",
   "Trusted: frame classifier written from the statement; frames whose meaning depends on decoder details (case-variant / duplicate keys) are judged for crash and ordering only. Return after Shutdown / timeout is bounded progress (30 s).",
   "runtime monitor: fault injection (client abort at every byte offset) + reference-model oracle + resource-release monitor (white-box counter, serving-call return)", "DESIGN.md §4 C10"),
  "C11": ("e-client", "fault_enumeration",
@@ -50,11 +50,11 @@ CHECKS = {
   "Trusted: the model (ordered name list + description map + serving flag). Non-empty names, valid UTF-8.",
   "runtime monitor: model-based history checking through the client helpers", "DESIGN.md §4 C13"),
  "C14": ("e-life", "exploration",
-  "(A) A controlled net.Listener is installed through the white-box accessor and DoListen runs on it: the accept loop's steps are exactly its calls on the listener, so every valid history over {connect, call, close, abort, handler fails, cancel context, second Bind, second Listen} up to a length bound (quick 4, thorough 5) is ended by Shutdown at each of 4 placements (parked in Accept, inside SetDeadline = before accept, inside Accept just before a connection is returned, racing from another goroutine), plus random longer histories. Further placements: from inside a handler, before and racing with the start of the serving call; a third serve period through Listen. Decided on event order only: accepted connections are released exactly when they end and counted out; listener closed by the time Shutdown returned; no service for a connection offered afterwards; no return while connections are open; nil return once they ended (refuted logically if the loop is parked on a listener nobody closed); re-bind + serve + shutdown of the same object. (B) real unix/TCP sockets with Listen and Bind+DoListen: client loops and a serve/Shutdown cycle recorded with logical call/return stamps and checked with porcupine against 'ok only while bound'. Histories include a call followed in the same segment by the start of a frame that is never completed. Three consecutive periods with a context each: the earlier context ends during the later period.",
+  "(A) A controlled net.Listener is installed through the white-box accessor and DoListen runs on it: the accept loop's steps are exactly its calls on the listener, so every valid history over {connect, call, close, abort, handler fails, cancel context, second Bind, second Listen} up to a length bound (quick 4, thorough 5) is ended by Shutdown at each of 4 placements (parked in Accept, inside SetDeadline = before accept, inside Accept just before a connection is returned, racing from another goroutine), plus random longer histories. Further placements: from inside a handler, before and racing with the start of the serving call; a third serve period through Listen. Decided on event order only: accepted connections are released exactly when they end and counted out; listener closed by the time Shutdown returned; no service for a connection offered afterwards; no return while connections are open; nil return once they ended (refuted logically if the loop is parked on a listener nobody closed); re-bind + serve + shutdown of the same object. (B) real unix/TCP sockets with Listen and Bind+DoListen: client loops and a serve/Shutdown cycle recorded with logical call/return stamps and checked with porcupine against 'ok only while bound'. Histories include a call followed in the same segment by the start of a frame that is never completed. Three consecutive periods with a context each: the earlier context ends during the later period. Two Service objects in one process using the same address string tcp:127.0.0.1:0.",
   "Trusted: controlled listener/conn (300 lines), porcupine v1.3.0, bounded progress (10 s per loop step, 20 s for the serving call to return). The drain grace (8 ms) and late-connection window (3 ms) are one-sided.",
   "runtime monitor: deterministic schedule control at the net.Listener boundary (bounded-exhaustive histories) + event-order oracle; porcupine linearizability check of recorded real-socket histories", "DESIGN.md §4 C14"),
  "C15": ("e-life", "exploration",
-  "(A) The controlled listener's deadline is virtual: SetDeadline arms it and the harness makes the parked Accept return a timeout error, so every valid history over {connect, call, close, abort, expiry} up to length 5 (thorough 10) places expiries exactly while a connection is verifiably open (must re-arm, re-enter Accept, keep serving) or after the active count reached 0 (must return ServiceTimeoutError with the listener closed); timeout 0 must never arm nor stop. The same object is afterwards served the other way round (timed/untimed), some histories follow a period ended by Shutdown with open connections. (B) real clock, T=150 ms, one-sided margins: second client served after 2.5 T with one connection open; ServiceTimeoutError after the last close; then dial fails, socket file gone, same address served again at once. A connection late in the period must postpone the stop to at least T after it began to dial (exact, one-sided); 26 connections closing at the same instant. The late-connection check also runs with serving contexts that carry a deadline inside the idle period or far later. A second history alphabet adds connections that the service itself ends (handler failure, non-call frame).",
+  "(A) The controlled listener's deadline is virtual: SetDeadline arms it and the harness makes the parked Accept return a timeout error, so every valid history over {connect, call, close, abort, expiry} up to length 5 (thorough 10) places expiries exactly while a connection is verifiably open (must re-arm, re-enter Accept, keep serving) or after the active count reached 0 (must return ServiceTimeoutError with the listener closed); timeout 0 must never arm nor stop. The same object is afterwards served the other way round (timed/untimed), some histories follow a period ended by Shutdown with open connections. (B) real clock, T=150 ms, one-sided margins: second client served after 2.5 T with one connection open; ServiceTimeoutError after the last close; then dial fails, socket file gone, same address served again at once. A connection late in the period must postpone the stop to at least T after it began to dial (exact, one-sided); 26 connections closing at the same instant. The late-connection check also runs with serving contexts that carry a deadline inside the idle period or far later. A second history alphabet adds connections that the service itself ends (handler failure, non-call frame). Bystander connections of the same process (a client Connection to another service) stay open during the idle period.",
   "Trusted: controlled listener; real-clock part asserts only what holds for a correct service under any load (bounds 200 T).",
   "runtime monitor: virtual-time fault injection (accept-timeout expiry) at the net.Listener boundary over bounded-exhaustive histories + event-order oracle; real-clock one-sided checks", "DESIGN.md §4 C15"),
  "C16": ("e-race", "exploration",
@@ -74,7 +74,7 @@ CHECKS = {
   "Trusted: the 15-line classifier written from the statement. unix:@ and port 0 judged for totality only; no host names (no resolver in the sandbox).",
   "runtime monitor: reference-classifier oracle + client/service consistency round trips + filesystem observations, panic monitor", "DESIGN.md §4 C19"),
  "C20": ("e-activ", "exploration",
-  "The full product of the quantifier (4 x 8 x 8 x 3 = 768 configurations; thorough x 3 kinds of non-selected descriptors) is enumerated completely: a helper process inherits three distinguishable candidates as fds 3,4,5, sets LISTEN_PID per case and calls Service.Listen(fallback). A 20-line model from the statement says which single endpoint must answer GetInfo with the helper's unique identity; no other candidate may answer; the helper must not panic. Extra cases: inherited listening TCP sockets. Up to three serve periods in one activated process with forced garbage collections in between.",
+  "The full product of the quantifier (4 x 8 x 8 x 3 = 768 configurations; thorough x 3 kinds of non-selected descriptors) is enumerated completely: a helper process inherits three distinguishable candidates as fds 3,4,5, sets LISTEN_PID per case and calls Service.Listen(fallback). A 20-line model from the statement says which single endpoint must answer GetInfo with the helper's unique identity; no other candidate may answer; the helper must not panic. Extra cases: inherited listening TCP sockets. Up to three serve periods in one activated process with forced garbage collections in between. The process changes LISTEN_PID between two periods.",
   "Trusted: the selection model (A.6); kernel fd inheritance via exec ExtraFiles. The negative probes are one-sided (15 ms).",
   "runtime monitor: exhaustive configuration enumeration through a helper subprocess + reference-model oracle on which endpoint answers", "DESIGN.md §4 C20"),
  "C07": ("e-gen", "translation_validation",
